@@ -891,7 +891,7 @@ package template
 //@   requires members: forallkey(w, haskeym(e.ns.set, w) ==> !isnil(e.ns.set[w]) && !isnil(e.ns.set[w].text))
 
 //@ func (e *escaper) commit() ()
-//@   serves C06
+//@   serves C02 C03 C06
 //@   option embedded nameSpace.esc
 //@   option allocates
 //@   option modifies nameSpace.esc.called nameSpace.esc.actionNodeEdits nameSpace.esc.templateNodeEdits nameSpace.esc.textNodeEdits parse_PipeNode.Cmds#refs parse_PipeNode.Cmds#n parse_CommandNode.Args#refs parse_TemplateNode.Name#b parse_TemplateNode.Name#o parse_TemplateNode.Name#l parse_TextNode.Text#b parse_TextNode.Text#o parse_TextNode.Text#l
